@@ -37,6 +37,10 @@ pub struct TrainCase {
     /// trace starts moving; the trace is the authority from the first step on
     #[serde(default)]
     pub init_speed_zero: bool,
+    /// speed-limited only: also let the code's own `walk()` (not the bounded restatement of
+    /// its loop) run the case in a child process and compare outcome and final state
+    #[serde(default)]
+    pub also_real_walk: bool,
 }
 
 pub struct TrainRun {
@@ -281,11 +285,21 @@ pub fn probe_walk_main(casefile: &str) -> i32 {
     // no history: memory stays flat, only termination is observed
     let mut sim = tsb.make_speed_limit_train_sim(&lm, None, None, None).expect("sim");
     let mut started = false;
-    match slts_schedule(&mut sim, &case, &net, &path, true, &mut started) {
-        Ok(()) => println!("RETURNED ok"),
-        Err(e) => println!("RETURNED err {}", format!("{e:#}").replace('\n', " ")),
+    crate::engine::install_panic_hook();
+    let r = catch(|| slts_schedule(&mut sim, &case, &net, &path, true, &mut started));
+    // the final state, bit for bit, so that the caller can compare it with its own run
+    let fin = format!("i={} offset={:016x} speed={:016x} time={:016x}", sim.state.i, sim.state.offset.value.to_bits(), sim.state.speed.value.to_bits(), sim.state.time.value.to_bits());
+    match r {
+        Ok(Ok(())) => println!("RETURNED ok {fin}"),
+        Ok(Err(e)) => println!("RETURNED err {fin} {}", format!("{e:#}").replace('\n', " ")),
+        Err(p) => println!("RETURNED panic {fin} {}", p.msg.replace('\n', " ")),
     }
     0
+}
+
+/// the same summary for a run made in this process
+pub fn final_summary(state: &TrainState) -> String {
+    format!("i={} offset={:016x} speed={:016x} time={:016x}", state.i, state.offset.value.to_bits(), state.speed.value.to_bits(), state.time.value.to_bits())
 }
 
 /// Ask a child process whether the real `walk()` returns for this case (None = it did not
@@ -576,7 +590,7 @@ pub fn gen_set_speed_case(g: &mut Gen, tier: Tier, allow_dummy: bool) -> TrainCa
             v = v_new;
             trace.push((r(t, 1), v));
         }
-        return TrainCase { links, train, mode: 0, trace, save_interval: Some(1), simulation_days: None, init_speed_zero: false };
+        return TrainCase { links, train, mode: 0, trace, save_interval: Some(1), simulation_days: None, init_speed_zero: false, also_real_walk: false };
     }
     let o = ChainOpts { max_links: 6, len_weights: [6, 3, 1], ..Default::default() };
     let ahead = g.grid(400.0, 6000.0, 14);
@@ -584,7 +598,7 @@ pub fn gen_set_speed_case(g: &mut Gen, tier: Tier, allow_dummy: bool) -> TrainCa
     let total: f64 = links.iter().map(|l| l.length).sum();
     // consistent inputs: the trace starts at the train's initial time and speed
     let trace = gen_trace(g, total - tp.length - 20.0, 30.0, train.init_time, max_steps);
-    TrainCase { links, train, mode: 0, trace, save_interval: Some(1), simulation_days: None, init_speed_zero: false }
+    TrainCase { links, train, mode: 0, trace, save_interval: Some(1), simulation_days: None, init_speed_zero: false, also_real_walk: false }
 }
 
 // ---------------------------------------------------------------------------------------
